@@ -266,6 +266,26 @@ Theorem C09_merge_all_perm_equiv_fuels :
     inst_set re_match fmt_ok o DV n (merge_all D f L) v = inst_set re_match fmt_ok o DV n (merge_all D f' L') v.
 Proof. exact merge_all_perm_equiv_fuels. Qed.
 
+(* STRING FORMATS (component level; `format` is not a keyword of [obj_frag]): merge_so_format is exact on the six
+   asserted string formats for EVERY format recogniser [fmt_ok] that satisfies the lattice ip >= ipv4, ipv6 and
+   the disjointness of unrelated formats (hypotheses sampled against the recognisers on every run; the function
+   itself is tied by the exhaustive K1 table of all ordered format pairs).  For integer-width and annotation-only
+   formats the same function is NOT exact: finding C09-F12. *)
+Theorem C09_merge_fmt_exact :
+  forall (fmt_ok : ustring -> ustring -> bool),
+    (forall s, fmt_ok f_ipv4 s = true -> fmt_ok f_ip s = true) ->
+    (forall s, fmt_ok f_ipv6 s = true -> fmt_ok f_ip s = true) ->
+    (forall x y s, is_string_format x = true -> is_string_format y = true -> fmt_related x y = false ->
+                   fmt_ok x s = true -> fmt_ok y s = true -> False) ->
+    forall (o : vopts) (fa fb : option ustring) (s : ustring),
+      asserted fa = true -> asserted fb = true ->
+      match merge_fmt fa fb with
+      | Some f => asserted f = true /\
+                  valid_format fmt_ok o f (JStr s) = valid_format fmt_ok o fa (JStr s) && valid_format fmt_ok o fb (JStr s)
+      | None => valid_format fmt_ok o fa (JStr s) && valid_format fmt_ok o fb (JStr s) = false
+      end.
+Proof. exact merge_fmt_exact. Qed.
+
 (* ---------------------------------------------------------------- refuted on the faithful model *)
 (* finding C09-F1 *)
 Theorem C09_merge_never_refuted_int_number :
